@@ -21,6 +21,7 @@ fn main() {
     std::panic::set_hook(Box::new(|_| {}));
     let rc = match args[1].as_str() {
         "lr" => lr::main(&args[2..]),
+        "lr-child" => lr::child_main(),
         x => {
             eprintln!("unknown subcommand {}", x);
             2
